@@ -53,6 +53,7 @@ class Reduced:
         self.init_v = {n: enc.vars[n][1] for n in self.names}
         self.parent = {}
         self.states = {}
+        self.succ = {}
         self.order = []
 
     def key(self, pcs, v):
@@ -140,6 +141,7 @@ class Reduced:
                 continue
             self.states[k] = (pcs, v)
             self.parent[k] = (par, via)
+            sc = self.succ[k] = []
             for ti, t in enumerate(self.threads):
                 aut = self.p.auts[t]
                 for e in self.out[t].get(pcs[ti], ()):
@@ -148,8 +150,75 @@ class Reduced:
                         if e.dst == aut.frontier:
                             frontier_hits.append((k, t, e))
                             continue
+                        sets = tuple(sorted((n, x) for n, x in nv.items()
+                                            if n.startswith('$in.') and n not in v))
+                        sc.append((t, e, self.key(npcs, nv), sets))
                         stack.append((npcs, nv, k, (t, e)))
         return True, frontier_hits
+
+    # ---- progress analysis: can every state still reach a state in which everybody is done? ----
+    def is_done(self, k):
+        pcs, vals, ins = k
+        vd = None
+        for ti, t in enumerate(self.threads):
+            aut = self.p.auts[t]
+            if pcs[ti] in aut.terminal:
+                continue
+            if pcs[ti] == aut.init:
+                if vd is None:
+                    vd = dict(zip(self.names, vals))
+                if vd.get(f'{t}.st', 1) == 0:
+                    continue  # never started
+            return False
+        return True
+
+    def progress(self, accept=None):
+        """dist[k] = number of steps within which `everybody done` can be reached from k, whatever
+        the inputs still to be read are; choice[k] = list of (input assignment, action edge) rows
+        realising it.  States without dist are doomed (deadlock, or a trap that only spins)."""
+        INF = float('inf')
+        dist = {k: 0 for k in self.states if self.is_done(k) or (accept is not None and accept(k))}
+        choice = {}
+        pred = defaultdict(set)
+        for k, sc in self.succ.items():
+            for (t, e, k2, sets) in sc:
+                pred[k2].add(k)
+        work = list(dist)
+        ninputs = {('$in.' + n): self.rt.inputs[n] for n in self.inames}
+        while work:
+            nxt = set()
+            for k2 in work:
+                nxt |= pred[k2]
+            work = []
+            for k in nxt:
+                if k in dist and dist[k] == 0:
+                    continue
+                sc = self.succ[k]
+                names = sorted(set(n for (_, _, _, sets) in sc for n, _ in sets))
+                if len(names) > 8:
+                    raise Unsupported('more than 8 inputs read in one step')
+                # every valuation u of the inputs read by the outgoing steps needs a step consistent
+                # with u that leads to a state of finite rank
+                worst, rows = 0, []
+                import itertools
+                for u in itertools.product(*[range(ninputs[n]) for n in names]):
+                    ud = dict(zip(names, u))
+                    best, beste = INF, None
+                    for (t, e, k2, sets) in sc:
+                        if all(ud[n] == x for n, x in sets):
+                            d2 = dist.get(k2, INF)
+                            if d2 + 1 < best:
+                                best, beste = d2 + 1, (t, e)
+                    if beste is None:
+                        worst = INF
+                        break
+                    worst = max(worst, best)
+                    rows.append((tuple(sorted(ud.items())), beste))
+                if worst < dist.get(k, INF):
+                    dist[k] = worst
+                    choice[k] = rows
+                    work.append(k)
+        return dist, choice
 
     def path_to(self, k):
         """Schedule (list of (thread, edge)) from the initial state to state key k."""
@@ -300,6 +369,45 @@ class Inductive:
             return out
         out['result'] = 'inductive-safe' if r == 'unsat' else 'unknown'
         return out
+
+    def doomed(self, accept=None):
+        """Explored states from which `everybody done` is unreachable (deadlocks and spin traps).
+        `accept`: states that count as ends although not done (listed known findings)."""
+        self.dist, self.choice = self.red.progress(accept)
+        return [k for k in self.red.states if k not in self.dist]
+
+    def progress_check(self, timeout_s=900):
+        """Solver certificate of `from every invariant state completion stays reachable`: every state of R
+        carries a rank d and a designated action; the query asks for a state whose designated action is
+        disabled or does not lead to a smaller rank.  Must be unsat."""
+        enc = self.enc
+        dist, choice = self.dist, self.choice
+        DW = max(1, int(max(dist.values())).bit_length())
+        d, d2 = z3.BitVec('rank@pre', DW), z3.BitVec('rank@post', DW)
+        iidx = {('$in.' + n): i for i, n in enumerate(self.red.inames)}
+        rows_n, rows_d = [], []
+        for k in self.red.states:
+            base = self.tuple_of(k)
+            rows_d.append(base + (dist[k],))
+            if dist[k] == 0:
+                continue
+            npre = len(self.cols)
+            for sets, (t, e) in choice[k]:
+                row = list(base)
+                for n, x in sets:
+                    row[npre + iidx[n]] = x
+                rows_n.append(tuple(row) + (dist[k], e.act))
+        vs_pre = [(enc.pre[n], w) for n, w in self.cols] + [(v, v.size()) for _, v in self.icols]
+        vs_post = [(enc.post[n], w) for n, w in self.cols] + [(v, v.size()) for _, v in self.icols]
+        Rn = Trie(vs_pre + [(d, DW), (enc.sel, enc.SW)]).build(rows_n)
+        Rd = Trie(vs_post + [(d2, DW)]).build(rows_d)
+        enabled = z3.Or([z3.And(enc.sel == j, enc.en[j]) for j in range(enc.A)])
+        s = self.solver(timeout_s)
+        s.add(Rn, z3.Or(z3.Not(enabled), z3.And(enc.trans, Rd, z3.UGE(d2, d))))
+        t1 = time.time()
+        r = str(s.check())
+        return {'query': 'progress', 'result': r, 'solver_s': round(time.time() - t1, 2),
+                'max_rank': int(max(dist.values()))}
 
     def witness(self, timeout_s=300):
         """A state of R in which every thread is done and the driver did not FAIL (vacuity guard)."""
